@@ -231,7 +231,7 @@ def run(prop, tier):
     focus = FOCUS[prop]
     W1 = [w for w in WD.catalogue(tier, "r1") if focus is None or focus(w)]
     W2 = [w for w in WD.catalogue_r2(tier) if focus is None or focus(w)]
-    inv1 = E.R1_INV.get(prop, []) + (["C05_Rows"] if prop == "C03" else [])
+    inv1 = E.R1_INV.get(prop, []) + (["C05_Rows", "C06_InLimits"] if prop == "C03" else [])
     prop1 = E.R1_PROP.get(prop, [])
     inv2 = E.R2_INV.get(prop, [])
     prop2 = E.R2_PROP.get(prop, [])
